@@ -203,6 +203,43 @@ def rule_subproblem_over_the_box(eng, rep, rule="C06-6.regularised-subproblem-is
     rep.require_count(rule, "ctrsbox_sfista call sites outside trust_region.py", n, 1)      # (today 4 copies of one call)
 
 
+LOWER_UPPER_WORDS = [("sl", "su"), ("xl", "xu"), ("lower", "upper"), ("xlb", "xub"), ("sl_abs", "su_abs"), ("xl_abs", "xu_abs"), ("l", "u"), ("lo", "hi"), ("lb", "ub")]
+
+
+def rule_box_projectors_get_a_lower_and_an_upper_bound(eng, rep, rule="C06-7.box-projector-is-handed-the-lower-bound-and-the-upper-bound"):
+    """Every call of util.pbox(x, l, u): `u` is the expression `l` with the lower-bound name replaced by its upper-bound twin (sl/su, xl/xu, xlb/xub, lower/upper, ..) --
+    the same base point, the same frame, the two ends of one box.  `pbox(x, xbase + su, xbase + su)` (or the two ends crossed) type-checks and agrees in frame, but
+    the regularised sub-problem is then solved over a box that is a single point / empty."""
+    import re
+    pb = eng.fn("util.pbox")
+    n = 0
+    for ci in eng.calls_to(pb.fid):
+        node = ci.node
+        if len(node.args) < 3:
+            continue
+        n += 1
+        site = eng.where(ci.caller, node)
+        l, u = ekey(node.args[1]), ekey(node.args[2])
+        okc = False
+        for (lo, hi) in LOWER_UPPER_WORDS:
+            if re.search(r"(?<![A-Za-z0-9_])%s(?![A-Za-z0-9_])" % re.escape(lo), l) and re.sub(r"(?<![A-Za-z0-9_])%s(?![A-Za-z0-9_])" % re.escape(lo), hi, l) == u:
+                okc = True
+        if not okc and "lower" in l and l.replace("lower", "upper") == u:
+            okc = True          # box_lower / box_upper, lower_bound / upper_bound, ..
+        if okc:
+            rep.ok(rule, site, "pbox(.., %s, %s): the two ends of one box" % (l[:40], u[:40]))
+        elif l == u:
+            rep.bad(rule, site, "%s|box-ends-identical|%s" % (ci.caller.fid, l[:40]), "pbox is handed `%s` as both ends of the box: the feasible set of the sub-problem is a single point" % l)
+        else:
+            # is the pair at least recognisably crossed?
+            crossed = any(re.sub(r"(?<![A-Za-z0-9_])%s(?![A-Za-z0-9_])" % re.escape(hi), lo, l) == u and re.search(r"(?<![A-Za-z0-9_])%s(?![A-Za-z0-9_])" % re.escape(hi), l) for (lo, hi) in LOWER_UPPER_WORDS)
+            if crossed:
+                rep.bad(rule, site, "%s|box-ends-crossed|%s" % (ci.caller.fid, l[:40]), "pbox is handed the upper bound `%s` as lower end and the lower bound `%s` as upper end" % (l, u))
+            else:
+                rep.unknown(rule, site, "cannot tell whether `%s` / `%s` are the lower and the upper end of one box" % (l[:50], u[:50]))
+    rep.require_count(rule, "calls of pbox", n, 2)
+
+
 def run(eng, rep):
     rep.explain("C06 (pass-through and frame clauses only): callable/tuple roles from solve's parameters are propagated by the 0-CFA atom analysis; every call of "
                 "role h/prox_uh/objfun must star-expand exactly the tuple of its own role; no user tuple is star-expanded into a fixed-arity internal callee (T10); "
@@ -213,5 +250,6 @@ def run(eng, rep):
     rep.guarded(rule_no_star_into_fixed_arity, eng, rep)
     rep.guarded(rule_none_defaults, eng, rep)
     rep.guarded(rule_subproblem_over_the_box, eng, rep)
+    rep.guarded(rule_box_projectors_get_a_lower_and_an_upper_bound, eng, rep)
     n = rule_frames(eng, rep, kinds=("dykstra-frames", "callback-frame", "arith"), rule_prefix="C06-4", exact_rule=None)
     rep.require_count("C06-4.frame-agreement", "dykstra/callback/arithmetic sites analysed over all configurations", n, 60)
